@@ -4858,6 +4858,11 @@ func (c *BytecodeCompiler) compileGenericMethodCallNode(node *ast.GenericMethodC
 
 func (c *BytecodeCompiler) compileMethodCall(receiver ast.ExpressionNode, op *token.Token, nameNode ast.IdentifierNode, args []ast.ExpressionNode, tailCall bool, location *position.Location) {
 	name := identifierToName(nameNode)
+	if c.hasDefer {
+		// the deferred code has to run after the call returns,
+		// so the frame cannot be replaced by a tail call
+		tailCall = false
+	}
 
 	switch op.Type {
 	case token.QUESTION_DOT:
